@@ -42,6 +42,11 @@ CLAIMED = {
         "For every DAG on up to 4 commits (5 thorough) and every pair of query commits, with commit timestamps as symbolic integers in [-2^40,2^40] (the code only compares/negates them, so all orderings incl. ties, backwards and negative clocks are covered): _find_lcas/find_merge_base return exactly the maximal common ancestors, can_fast_forward(a,b) <=> a is an ancestor of b, independent/find_octopus_base (thorough) are exact; Walker yields exactly the reachable set once each in date and topo order (never a parent before its child), and reachable(include)-reachable(exclude) under monotone clocks. Three genuine defects found by this check were repaired (fix: commits 77392fb, 0225633, 3a70501).",
         "Trusted: z3, ksym, CPython. Commits are real Commit objects with fixed ids in a dict-backed store (no serialisation); heapq runs natively on the proxies' comparison protocol.",
     ),
+    "C05": (
+        "bounded symbolic exploration of the object-selection core and the in-process fetch path (ksym): history shape, tag targets, gitlinks, haves and wants are solver-forked variables; oracle = reference closure",
+        "For every history of 3 commits (all parent sets; two trees sharing a subtree, optionally with a gitlink whose target is itself a commit of the history), tag and tag-of-tag on any commit, every haves subset (receiver holds its closure) and every non-empty wants subset: the real MissingObjectFinder sends each object once, everything in closure(wants) is sent or already present, and nothing outside closure(wants) is sent. LocalGitClient.fetch between two real repositories (source loose or packed, branch anywhere, optional tag ref, receiver holding any complete sub-history): the receiver afterwards holds the complete closure of the fetched refs byte-identically and keeps what it had. Network transports, C git peers, capability negotiation, depth-limited fetches and the server-side want validation are outside this check (process/socket I/O is not reachable by this technique; the server's ack logic was not harnessed).",
+        "Trusted: z3 (forking), ksym, zlib/sha as executed concretely by the real code.",
+    ),
     "C06": (
         "bounded symbolic exploration of the real receive-pack handler (ksym): server state, command list and capabilities are solver-forked variables; real pkt-line stream and pack; report decoded by the client's parser",
         "For every server state (two refs each absent/A/B), every list of 1-2 commands (old in {0,A,B}, new in {0,A,B, an object sent in the pack, an object nobody has}) and capability sets with/without atomic and side-band-64k, the real ReceivePackHandler.handle() on a bare disk repository over an in-memory pkt-line stream: a ref is reported ok exactly when it now holds the requested value and its previous value was the one the client named; stale commands leave the ref untouched and are reported ng; refs not named are untouched; every ref names a present object; atomic pushes report and apply all or nothing. Two genuine defects found by this check were repaired (ba16574, d306ccc). Racing pushers are covered at the compare-and-swap level by C08; hooks and the local push path are not covered.",
